@@ -59,6 +59,12 @@ Theorem C20_trunc_utf8 : forall (s : list Z) (n : Z), valid_utf8 s -> 0 <= n ->
 Proof. exact trunc_utf8. Qed.
 Print Assumptions C20_trunc_utf8.
 
+(* the decision procedure the driver evaluates on the implementation's inputs and outputs is
+   exactly the RFC 3629 predicate of the two theorems above *)
+Theorem C20_valid_utf8_decidable : forall s : list Z, valid_utf8b s = true <-> valid_utf8 s.
+Proof. exact valid_utf8b_iff. Qed.
+Print Assumptions C20_valid_utf8_decidable.
+
 (* "a" U+00E9 U+20AC U+1F600 "b", cut in the middle of the 4-byte character *)
 Example C20_trunc_ex :
   let s := [97; 195; 169; 226; 130; 172; 240; 159; 152; 128; 98] in
@@ -69,7 +75,7 @@ Proof.
 Qed.
 
 (* ---------------------------------------------------------------- mstr.CompareNatural *)
-From Mds Require Import Mstr.MstrProofsNat.
+From Mds Require Import Mstr.MstrProofsNat Mstr.MstrProofsZeros.
 
 (* CompareNatural(a, b), for all byte strings whose digit runs have at most 18 digits (so that
    parseInt's 64-bit accumulation cannot wrap; the model wraps explicitly beyond): a normal return
@@ -108,6 +114,14 @@ Theorem C20_compare_zero : forall a b : list Z, short_runs a -> short_runs b ->
 Proof. exact compare_natural_zero. Qed.
 Print Assumptions C20_compare_zero.
 
+(* ... which is: equal up to leading zeros of digit runs.  [normal_form s] is s with the leading
+   zeros of every maximal digit run removed (a run of zeros becoming "0"); that equal keys mean
+   equal normal forms is the uniqueness of decimal notation (Mstr/MstrProofsZeros.v). *)
+Theorem C20_compare_zero_leading_zeros : forall a b : list Z, short_runs a -> short_runs b ->
+  (compare_natural a b = Ok 0 <-> normal_form a = normal_form b).
+Proof. exact compare_natural_zero_nf. Qed.
+Print Assumptions C20_compare_zero_leading_zeros.
+
 (* numeric on digit runs: two non-empty strings of at most 18 digits compare as their values *)
 Theorem C20_compare_numeric : forall a b : list Z, a <> [] -> b <> [] ->
   forallb digit a = true -> forallb digit b = true -> (length a <= 18)%nat -> (length b <= 18)%nat ->
@@ -121,5 +135,6 @@ Example C20_compare_ex :
   compare_natural [97; 50; 98] [97; 49; 50; 98] = Ok (-1) /\
   compare_natural [97; 49; 50; 98] [97; 49; 50; 99] = Ok (-1) /\
   compare_natural [97; 48; 48; 55] [97; 55] = Ok 0 /\ key [97; 48; 48; 55] = key [97; 55] /\
+  normal_form [97; 48; 48; 55; 47; 48; 48; 48] = [97; 55; 47; 48] /\
   compare_natural [49; 50] [97] = Ok (-1) /\ compare_natural [47] [49; 50] = Ok (-1).
 Proof. repeat split; vm_compute; reflexivity. Qed.
